@@ -1352,8 +1352,9 @@ fn classify(st: &mut State, me: usize, a: &Access, role: Role, node: usize, res:
                 st.th[me].node = node;
                 node_acquired(st, me);
             }
-            // release: swap to COOLDOWN(2)
-            if a.op == Op::Swap && a.a == 2 {
+            // release: the owner writes anything but USED (the crate swaps in COOLDOWN; a
+            // refactoring that releases differently must not look like a second owner)
+            if matches!(a.op, Op::Swap | Op::Store) && a.a != 1 && st.owner.get(&node) == Some(&me) {
                 if st.owner.get(&node) == Some(&me) {
                     st.owner.remove(&node);
                 }
